@@ -95,6 +95,7 @@ var propImports = map[string][]imp{
 		{"C01.12/limit-read-per-connection", "C16", "the receive limit a message is checked against is the one configured when its connection is accepted: a stale limit drops messages the property says are delivered", []string{"C16.11/limit-read-per-connection"}},
 	},
 	"C02": {
+		{"C02.15/no-peer-signal", "C18", "the 'ran out of peers' signal of PUSH is re-armed where it was raised: otherwise every send made after the last peer left and before the next one is admitted fails at once although fail-no-peers semantics only apply while there is no peer, and sends accepted later are refused", []string{"C18.4/fail-no-peers|xpush"}},
 		{"C02.13/api-copies", "C01", "Recv hands the application a private copy of the body: the delivered bytes do not change when the message is recycled", []string{"C01.8/api-copies"}},
 		{"C02.8/E3", "C11", "PAIR admission and PUSH scheduling state (and the core attach/detach flags they are driven by) is read and written under its lock: a detach decided on a stale flag never tells the protocol its peer has gone", []string{"C11.1/E3|internal/core", "C11.1/E3|protocol/xpair", "C11.1/E3|protocol/xpush", "C11.1/E3|protocol/xpull"}},
 		{"C02.9/ownership", "C17", "a message accepted for delivery is neither released twice nor shared with a later one (no duplication, loss or reordering through a recycled buffer)", []string{"C17.5/send-contract", "C17.1/E5|protocol/xpair", "C17.1/E5|protocol/xpush", "C17.1/E5|protocol/xpull", "C17.1/E5|transport"}},
@@ -108,6 +109,7 @@ var propImports = map[string][]imp{
 		{"C03.11/E3", "C11", "request state is accessed under the socket lock", []string{"C11.1/E3|protocol/req", "C11.1/E3|protocol/xreq"}},
 	},
 	"C04": {
+		{"C04.21/retry-inherited", "C19", "a context opened on the socket retries at the interval configured on the socket, including 0 = never (the interval is what decides whether an unanswered request is sent again)", []string{"C19.4/inheritance|protocol/req"}},
 		{"C04.20/api-copies", "C01", "the request kept for retransmission is a private copy of the bytes the caller passed: the re-send is byte-identical whatever the caller does with its buffer", []string{"C01.8/api-copies"}},
 		{"C04.19/lifecycle", "C13", "REQ is told of every departure of a pipe it was told of: only then is the request that rode it re-sent", []string{"C13.1/addPipe", "C13.2/detached", "C13.3/once-each"}},
 		{"C04.16/send-contract", "C17", "the request kept for retransmission is not released by a failed transmission (the re-send must be byte-identical)", []string{"C17.5/send-contract|transport"}},
@@ -141,6 +143,7 @@ var propImports = map[string][]imp{
 		{"C08.11/E3", "C11", "peer tables are accessed under the socket lock", []string{"C11.1/E3|protocol/xbus", "C11.1/E3|protocol/xstar"}},
 	},
 	"C09": {
+		{"C09.15/inproc-copies", "C01", "a message crossing an in-process link arrives as header followed by body, in a buffer of its own: a device forwards what it received, so a mangled copy is forwarded mangled", []string{"C01.7/inproc"}},
 		{"C09.13/request-id-marker", "C03", "every request id ends the backtrace: devices stop copying routing words at it", []string{"C03.12/id-end-marker"}},
 		{"C09.12/transport-leaves-message-intact", "C17", "sending a message does not rewrite it: a message shared by reference count (forwarded, broadcast or kept for re-sending) goes out identical on every connection", []string{"C17.4/no-write-through"}},
 		{"C09.11/forwarded-message-intact", "C17", "a message handed back to the forwarder after a failed send is unchanged (a retry routes by the same header)", []string{"C17.5/send-contract|protocol/x", "C17.1/E5|protocol/xrep", "C17.1/E5|protocol/xreq", "C17.1/E5|protocol/xrespondent", "C17.1/E5|protocol/xsurveyor"}},
@@ -163,10 +166,12 @@ var propImports = map[string][]imp{
 		{"C12.11/redial", "C14", "losing or failing a connection at any stage never stops a dialer from redialling", []string{"C14.2/backoff", "C14.5/redial-after-loss"}},
 	},
 	"C13": {
+		{"C13.15/redial-after-loss", "C14", "a dialer's next pipe exists only if the loss of the previous one schedules the redial: every departure of a dialed pipe arms the timer while the dialer is open, whatever the current delay", []string{"C14.5/redial-after-loss"}},
 		{"C13.10/carry-on", "C12", "the listener and the dialer carry on accepting and redialling: a peer's failure is never reported as 'endpoint closed'", []string{"C12.5/ErrClosed-means-closed", "C12.3/endpoint-usable"}},
 		{"C13.11/handshake", "C16", "a connection that fails its handshake yields no pipe and does not end the accept loop", []string{"C16.6/handshake-validation"}},
 	},
 	"C14": {
+		{"C14.14/option-stores", "C19", "each reconnect option writes its own field: the current delay is changed only by the back-off and the reset, never by setting the maximum", []string{"C19.3/set-get-symmetry|internal/core.(*dialer)"}},
 		{"C14.11/dial-returns", "C16", "every handshake outcome is reported to the Dial that waits for it: otherwise the dialer never learns of the failure and never retries", []string{"C16.5/handshaker|worker/"}},
 		{"C14.12/dialer-list", "C13", "the socket's dialer list holds exactly the dialers created on it: Close closes those, and a dialer dropped from the list keeps dialling after Close", []string{"C13.14/core-state-writers|writers-of-dialers"}},
 		{"C14.10/wake-ups", "C10", "a dialer parked in the transport until its listener appears is woken when it does (every waiter is woken: the condition variable is shared by all addresses)", []string{"C10.1/cond|transport/inproc"}},
@@ -197,6 +202,8 @@ var propImports = map[string][]imp{
 		{"C18.10/inheritance", "C19", "a new context starts with the deadlines configured on the socket (send from send, receive from receive)", []string{"C19.4/inheritance"}},
 	},
 	"C19": {
+		{"C19.17/reconnect-reset", "C14", "ReconnectTime takes effect as documented whatever MaxReconnectTime is: after a successful attach the delay returns to it", []string{"C14.4/reset"}},
+		{"C19.18/ttl-range", "C09", "the TTL option accepts exactly 1..255 on every protocol that has it", []string{"C09.3/ttl-option"}},
 		{"C19.15/best-effort-takes-effect", "C18", "an accepted BestEffort / deadline value takes effect as documented on every send and receive path", []string{"C18.1/deadline-select"}},
 		{"C19.11/backoff", "C14", "MaxReconnectTime takes effect as documented: 0 disables the back-off, otherwise it caps it", []string{"C14.2/backoff"}},
 	},
